@@ -14,5 +14,6 @@ CutsOf(s) ==
 GInit == gs \in MCStreams /\ gcuts \in CutsOf(gs)
 GNext == UNCHANGED <<gs, gcuts>>
 GSpec == GInit /\ [][GNext]_<<gs, gcuts>>
-Emit == PrintT("BEH " \o ToJson([bytes |-> gs, cuts |-> gcuts])) /\ FALSE
+WFSet == Pipelines(ReqsSmall) \cup ReqsMore \cup Pipelines(ReqsMid)      \* streams meant to be well-formed
+Emit == PrintT("BEH " \o ToJson([bytes |-> gs, cuts |-> gcuts, claim |-> IF gs \in WFSet THEN "wf" ELSE "any"])) /\ FALSE
 ===============================================================================
